@@ -95,6 +95,12 @@ def strategy_contract(chk, prefix, which):
         chk.fault(f"{q}: expected closures")
         return
     for _, strat, st1 in made:
+        # the strategy decides every failure of the step, in this and in later invocations: it must not carry consumable state.  A generator object
+        # captured by the closure is consumed by the first decision(s) and empty afterwards.
+        one_shot = [n_ for n_, v_ in (strat.closure or {}).items() if isinstance(v_, Ref) and st1.get(v_).get("__gen__")]
+        chk.prove(f"{prefix}.strategy.stateless_closure", st1.pc, z3.BoolVal(not one_shot),
+                  desc="the strategy function captures no one-shot iterator (generator object): its decision is a function of (error / state, attempts made) and the configuration, the same at every call"
+                       + (f"; captured generator(s): {one_shot}" if one_shot else ""))
         _strategy_paths(chk, prefix, which, eng, strat, st1, locals())
     return eng
 
